@@ -147,7 +147,7 @@ PROPS = {
  ),
  "C05": dict(
   twin_toml=True,
-  ops={"resolve": dict(fields=["r", "val"], spec=[("r", "spec_r", ident)], laws=["law_walk"])},
+  ops={"resolve": dict(fields=["r", "val"], spec=[("r", "spec_r", ident)], laws=["law_walk", "law_fwd"])},
   rule="all documents of a tiny grammar × all pointers of ≤2 (quick) / ≤3 (thorough) tokens over a delicate pool, + seeded random documents with path-directed / perturbed / free pointers; non-trivial: ≥2 tokens or an index/escaped token, on a container",
   exhaustive="155 tiny documents × all pointers of ≤2/≤3 tokens over {a,0,1,-,00,~0}",
   theorems="Jp.C05.resolve_eq_walk, resolve_returns_node, every_node_addressable, pointer_of_node_unique, resolve_no_panic",
@@ -155,7 +155,7 @@ PROPS = {
  ),
  "C06": dict(
   twin_toml=True,
-  ops={"assign": dict(fields=["r", "doc"], spec=[("r", "spec_r", ident), ("doc", "spec_doc", ident)], laws=["law_slack"])},
+  ops={"assign": dict(fields=["r", "doc"], spec=[("r", "spec_r", ident), ("doc", "spec_doc", ident)], laws=["law_slack", "law_fwd"])},
   rule="tiny-grammar exhaustive scope + seeded random (document, pointer, value); non-trivial: ≥2 tokens or an index/escaped token, on a container",
   exhaustive="155 tiny documents × all pointers of ≤2/≤3 tokens × 1–2 values",
   theorems="Jp.C06.assign_eq_spec, expand_eq_spec, assign_root, only_two_failures, spec_rules",
@@ -164,7 +164,7 @@ PROPS = {
   twin_toml=True,
   # the six laws are evaluated on the real crate; against the model only ok/err and the document
   # afterwards are compared (error kinds and the returned value belong to C06)
-  ops={"assign": dict(fields=[_okerr("r"), "doc"], laws=["law_atomic", "law_ryw", "law_frame", "law_replaced", "law_idem", "law_slack"])},
+  ops={"assign": dict(fields=[_okerr("r"), "doc"], laws=["law_atomic", "law_ryw", "law_frame", "law_replaced", "law_idem", "law_slack", "law_fwd"])},
   rule="as C06; the six laws are evaluated on the real crate for every case",
   exhaustive="155 tiny documents × all pointers of ≤2/≤3 tokens × 1–2 values",
   theorems="Jp.C07.atomic, read_your_write, frame, replaced_some, replaced_none, idempotent",
@@ -172,7 +172,7 @@ PROPS = {
  "C08": dict(
   twin_toml=True,
   ops={"delete": dict(fields=["r", "doc"], spec=[("r", "spec_r", ident), ("doc", "spec_doc", ident)],
-                      laws=["law_agrees", "law_none_unchanged", "law_removed", "law_root", "law_slack"])},
+                      laws=["law_agrees", "law_none_unchanged", "law_removed", "law_root", "law_slack", "law_fwd"])},
   rule="tiny-grammar exhaustive scope + seeded random, many pointers ending in index = len, len+1, '-', empty arrays; non-trivial as C05",
   exhaustive="155 tiny documents × all pointers of ≤2/≤3 tokens",
   theorems="Jp.C08.delete_eq_spec, delete_some_iff_resolves, delete_none_unchanged, delete_no_panic, delete_root, removeAt_*",
@@ -182,8 +182,8 @@ PROPS = {
    # C09 is a relation BETWEEN implementations: it is decided by comparing the six real walks with each
    # other on the same lines (json vs toml: `cross_backend`; resolve vs resolve_mut: law_mut_same;
    # write-through: law_write). The tie of those walks to the model is the business of C05/C06/C08/C15.
-   "resolve": dict(fields=[], laws=["law_mut_same"]),
-   "resolve_mut": dict(fields=[], laws=["law_mut_same"]),
+   "resolve": dict(fields=[], laws=["law_mut_same", "law_fwd"]),
+   "resolve_mut": dict(fields=[], laws=["law_mut_same", "law_fwd"]),
    "write": dict(fields=[], laws=["law_write"]),
    "assign": dict(fields=[], laws=[]),
    "delete": dict(fields=[], laws=[]),
@@ -242,9 +242,9 @@ PROPS = {
  "C15": dict(
   twin_toml=True,
   ops={
-   "resolve": dict(fields=[_locate(f) for f in LOCATE], laws=["law_locate"]),
-   "resolve_mut": dict(fields=[_locate(f) for f in LOCATE], laws=["law_locate"]),
-   "assign": dict(fields=[_locate(f) for f in LOCATE], laws=["law_locate"]),
+   "resolve": dict(fields=[_locate(f) for f in LOCATE], laws=["law_locate", "law_fwd"]),
+   "resolve_mut": dict(fields=[_locate(f) for f in LOCATE], laws=["law_locate", "law_fwd"]),
+   "assign": dict(fields=[_locate(f) for f in LOCATE], laws=["law_locate", "law_fwd"]),
   },
   rule="seeded random documents (depth ≤4) with pointers that mostly fail at a random depth, escaped/empty/multi-byte tokens before the failing one, json and toml; non-trivial as C05",
   theorems="Jp.C15.resolve_err_locates, resolveMut_err_locates, assign_err_locates, resolve_payload, assign_payload, label_covers_token",
